@@ -40,6 +40,10 @@
 #define GUARD 64
 #define GB 0xA5
 
+/* the process clock is pinned (link-time wrap of time()): PEAK chunk time stamps and generated date strings become comparable */
+#include <time.h>
+time_t __wrap_time (time_t *t) { time_t v = 1700000000 ; if (t) *t = v ; return v ; }
+
 static VIO_MEM stores [NSTORE] ;
 static SNDFILE *handles [NHANDLE] ;
 static int hstore [NHANDLE] ;
